@@ -32,6 +32,37 @@ def test_delete_environment_cascades_and_resets_current() -> None:
         assert cfg.delete_environment(url) is False
 
 
+def test_delete_current_environment_clears_current_profile() -> None:
+    with tempfile.TemporaryDirectory() as temp_dir:
+        cfg = ConfigManager()
+        cfg.config_dir = Path(temp_dir)
+        cfg.db_path = cfg.config_dir / "profiles.db"
+        cfg._ensure_config_dir()
+        cfg._init_database()
+
+        default_url = cfg.get_current_environment().api_url
+        cfg.create_profile("default", default_url, "p-default")
+
+        # Same-named profile selected in another environment
+        url = "https://env.del.local"
+        cfg.create_or_update_environment(url, requires_auth=False)
+        cfg.set_settings_current_environment(url)
+        cfg.create_profile("default", url, "p-other")
+        cfg.set_settings_current_profile("default")
+
+        assert cfg.delete_environment(url) is True
+        assert cfg.get_current_environment().api_url == default_url
+        # The selection made in the deleted environment must not carry over
+        assert cfg.get_settings_current_profile_name() is None
+        assert cfg.get_current_profile(default_url) is None
+
+        # Deleting a non-current environment keeps the selection
+        cfg.set_settings_current_profile("default")
+        cfg.create_or_update_environment(url, requires_auth=False)
+        assert cfg.delete_environment(url) is True
+        assert cfg.get_settings_current_profile_name() == "default"
+
+
 def test_get_current_environment_fallback_when_missing_row() -> None:
     with tempfile.TemporaryDirectory() as temp_dir:
         cfg = ConfigManager()
